@@ -368,6 +368,35 @@ impl C15 {
             return;
         }
         acc.outcome("symbolic-link", case);
+        // a linked directory: `..` inside it leads to the parent of the link's target, as the
+        // operating system resolves it (not to the directory the link stands in)
+        let c = cli::CliCase {
+            name: "include-below-a-linked-directory".into(),
+            entries: vec![
+                cli::Entry::File("proj/main.s".into(), b"main:\n    li a0, 3\n    jal twice\n    li a7, 1\n    ecall\n    li a7, 10\n    ecall\n    .include \"lib/mathlib.s\"\n".to_vec()),
+                cli::Entry::File("shared/lib/mathlib.s".into(), b"twice:\n    add zero, a0, a0\n    .include \"../common.s\"\n".to_vec()),
+                cli::Entry::File("shared/common.s".into(), b"    slli a0, a0, 1\n    ret\n".to_vec()),
+                cli::Entry::Link("proj/lib".into(), "../shared/lib".into()),
+            ],
+            base: "proj/main.s".into(),
+        };
+        let dir = cli::materialize(&c);
+        let out = cli::run_rva("release", &dir, "proj/main.s", &["--compact", "--no-color", "--all-files"], &[("RVA_VERIF_SCHEDULE", String::new())], Duration::from_secs(10));
+        let _ = std::fs::remove_dir_all(&dir);
+        let Ok(o) = out else { return };
+        acc.count("cli_runs", 1);
+        let items: Vec<&str> = o.stdout.lines().filter(|l| l.starts_with("Error:") || l.starts_with("Warning:")).collect();
+        let ok = !items.is_empty() && items.iter().all(|l| l.contains("lib/mathlib.s") && l.contains(" at 2 ")) && !o.stdout.contains("IO Error");
+        if !ok {
+            acc.violation(
+                "C15|include-below-a-linked-directory",
+                case,
+                json!({"case": case, "symlink_case": true, "files": {"proj/main.s": "... .include \"lib/mathlib.s\"", "proj/lib": "-> ../shared/lib", "shared/lib/mathlib.s": "twice: / add zero, a0, a0 / .include \"../common.s\"", "shared/common.s": "slli a0, a0, 1 / ret"},
+                       "stdout": o.stdout, "expected": "items only on line 2 of lib/mathlib.s, no IO error"}),
+            );
+            return;
+        }
+        acc.outcome("linked-directory", case);
     }
 
     /// one include graph: no faults, then every answer sequence with one fault (thorough: two)
